@@ -460,7 +460,7 @@ h!(c01_clear_vmax, 3, clear_h::<_, u8, 0>(V565::<65535, 65535>::new()));
 //@ props=C01,C02,C08,C20 tier=thorough inst="VModel<Rgb565,320,240>/u16/Parallel16Bit" bounds="same" timeout=900 mem=4
 h!(c01_clear_v16_320x240, 3, clear_h::<_, u16, 2>(V565::<320, 240>::new()));
 
-//@ props=C04,C01,C02,C08,C20 cfg=main,ptr16 inst="VModel<Rgb565,3,2>/u8" bounds="rectangle position in [-2,3]^2, size <= 3x3, stream length 0..=10 (beyond the area), all cfgs on the 3x2 framebuffer; unwind 12" timeout=900 mem=6
+//@ props=C04,C01,C02,C08,C20 cfg=main,ptr16,nobatch inst="VModel<Rgb565,3,2>/u8" bounds="rectangle position in [-2,3]^2, size <= 3x3, stream length 0..=10 (beyond the area), all cfgs on the 3x2 framebuffer; unwind 12" timeout=900 mem=6
 h!(c04_fillc_q, 12, fill_contiguous_h::<_, u8, 0>(V565::<3, 2>::new(), -2, 3, 3, 10));
 //@ props=C04,C01,C02,C08,C20 tier=thorough cfg=main,ptr16 inst="VModel<Rgb565,3,2>/u8" bounds="position in [-2,3]^2, size <= 4x4, stream 0..=17; unwind 19" timeout=3000 mem=10
 h!(c04_fillc_t, 19, fill_contiguous_h::<_, u8, 0>(V565::<3, 2>::new(), -2, 3, 4, 17));
